@@ -1,23 +1,34 @@
 #!/usr/bin/env python3
 """C18 -- JSON-RPC framing is lossless and calls are matched to their responses.
 
+Ids are typed values in both specs (number vs string; the string "7" is not the number 7).
+
 Framing half (spec/Framing.tla, no hook needed)
   MC   : the closed reader automaton (any byte at every step, EOF at any time: all inputs of all lengths);
-         the bounded system (message sequences x every variant x every truncation point x chunkings);
-         negative config (header counts runes) must violate Lossless.
-  GEN  : simulated behaviours (message sequence, variant, chunking, predicted decoded sequence / error class) on
-         wires with the byte lengths of the real messages are replayed on the real jsonrpc2.NewStream: over a reader
-         that yields exactly those chunks, under further chunkings (ChunkingIrrelevant), through an io.Pipe (prompt
-         delivery after each complete frame, no hang after close) and round-trip through the real stream.Write,
-         whose header is compared with the number of bytes it wrote.
+         the bounded system (message sequences x every variant x every truncation point x chunkings), incl.
+         IdsPreserved (the id read back is the id written, with its type); negative configs: the header counts
+         runes (must violate Lossless), quoted numerals decode as numbers (must violate IdsPreserved).
+  GEN  : simulated behaviours (message sequence, variant, chunking, predicted decoded sequence with typed ids /
+         error class) on wires with the byte lengths of the real messages (the catalogue contains string ids that
+         look like numbers) are replayed on the real jsonrpc2.NewStream: over a reader that yields exactly those
+         chunks, under further chunkings (ChunkingIrrelevant), through an io.Pipe (prompt delivery after each
+         complete frame, no hang after close) and round-trip through the real stream.Write, whose header is
+         compared with the number of bytes it wrote.
 Conn half (spec/JsonRpc.tla, needs hooks/C18-jsonrpc2-conn.diff in the repository under test)
-  MC   : callers x notifiers x run loop x peer x cancellations, safety + liveness; negative configs (no writeMu,
-         unbuffered reply channel, pending insert after sending) must be rejected.
+  MC   : callers (id allocation as one atomic step, pending map keyed by typed id) x notifiers x run loop x peer
+         (replies, stray responses and calls with confusable ids) x cancellations, safety + liveness; negative
+         configs (no writeMu, unbuffered reply channel, pending insert after sending, two-step id allocation,
+         quoted numerals decoded as numbers) must be rejected.
   GEN  : simulated behaviours are peer scripts replayed against the real Conn (the harness is the peer and owns the
-         contexts; environment actions are executed inside the hook that precedes them in the behaviour), -race.
-  VAL  : the hook events + the harness's own events of every case are validated by TLC against TraceJsonRpc.tla.
+         contexts; environment actions are executed inside the hook that precedes them in the behaviour), -race;
+         plus unsteered bursts: N callers and two notifiers enter a fresh conn at the same instant (spin barrier),
+         every request carries its caller's marker, the peer echoes it out of order.
+  VAL  : the hook events + the harness's own events of every case (real typed ids) are validated by TLC against
+         TraceJsonRpc.tla.
+The pure model-checking runs are independent of each other and run concurrently.
 """
 import json, os, re, sys
+from concurrent.futures import ThreadPoolExecutor
 sys.path.insert(0, os.path.join(os.path.dirname(os.path.abspath(__file__)), "..", "lib"))
 import vlib
 
@@ -66,28 +77,69 @@ def write_lines(path, objs):
             fh.write(json.dumps(o) + "\n")
 
 
-def framing(ck, thorough, binp):
-    sc = vlib.scratch()
-    # --- MC ---------------------------------------------------------------------------------------
-    closed = vlib.tlc("MCFramingClosed", "Framing_closed.cfg", workers=4, timeout=300)
-    if not closed.ok:
-        raise vlib.InfraError("closed reader automaton violates %s: the model of stream.Read is wrong" % closed.violated)
-    ck.add_tlc(closed, "Framing_closed (reader automaton, all inputs)")
+class Jobs:
+    """The pure MC runs are independent: start them all, collect each where it is needed."""
+
+    def __init__(self, n):
+        vlib.scratch()
+        self.pool = ThreadPoolExecutor(max_workers=n)
+        self.fut = {}
+
+    def tlc(self, key, module, cfg, **kw):
+        self.fut[key] = self.pool.submit(vlib.tlc, module, cfg, **kw)
+
+    def call(self, key, fn, *a, **kw):
+        self.fut[key] = self.pool.submit(fn, *a, **kw)
+
+    def get(self, key):
+        return self.fut[key].result()
+
+    def close(self):
+        self.pool.shutdown(wait=False, cancel_futures=True)
+
+
+FRAMING_NEG = (("Framing_neg.cfg", "Lossless", "Content-Length counts runes"),
+               ("Framing_neg_idunquote.cfg", "IdsPreserved", "quoted numerals decode as numbers"))
+CONN_NEG = (("JsonRpc_neg_nomutex.cfg", "FramesNeverInterleave", "no writeMu"),
+            ("JsonRpc_neg_unbuffered.cfg", "ReaderNeverBlocks", "unbuffered reply channel"),
+            ("JsonRpc_neg_latereg.cfg", "RegisteredBeforeSending", "register after sending"),
+            ("JsonRpc_neg_alloc2step.cfg", "UniqueIds", "two-step id allocation: two calls share an id"),
+            ("JsonRpc_neg_alloc2step_matched.cfg", "Matched", "two-step id allocation: a call returns the other call's response"),
+            ("JsonRpc_neg_unquote_stray.cfg", "IdTypePreserved", "quoted numerals decode as numbers: string id looked up as a number"),
+            ("JsonRpc_neg_unquote_matched.cfg", "Matched", "quoted numerals decode as numbers: stray response delivered to call #1"),
+            ("JsonRpc_neg_unquote_pcall.cfg", "PeerCallsEchoed", "quoted numerals decode as numbers: peer call \"42\" answered with id 42"))
+
+
+def start_mc(jobs, thorough):
+    jobs.tlc("f_closed", "MCFramingClosed", "Framing_closed.cfg", workers=4, timeout=300)
     mcfg = open(os.path.join(vlib.SPEC, "Framing_mc.cfg")).read()
     if thorough:
         mcfg = mcfg.replace("MaxMsgs = 2", "MaxMsgs = 3").replace("ChunkMax = 2", "ChunkMax = 2")
-    mc = vlib.tlc("MCFraming", "mc.cfg", files={"mc.cfg": mcfg}, workers=8, timeout=900, xss="512m")
-    if not mc.ok:
-        raise vlib.InfraError("Framing model violates %s: spec and code model disagree" % mc.violated)
-    ck.add_tlc(mc, "Framing_mc")
-    neg = vlib.tlc("MCFraming", "Framing_neg.cfg", workers=1, timeout=300, xss="512m")
-    if neg.violated != "Lossless":
-        raise vlib.InfraError("negative config (Content-Length counts runes) was not rejected by Lossless (got %s)" % neg.violated)
-    ck.set("framing_negative_config_rejected", True)
+    jobs.tlc("f_mc", "MCFraming", "mc.cfg", files={"mc.cfg": mcfg}, workers=8, timeout=900, xss="512m")
+    for cfg, _, _ in FRAMING_NEG:
+        jobs.tlc(cfg, "MCFraming", cfg, workers=1, timeout=300, xss="512m")
+    mcfg = open(os.path.join(vlib.SPEC, "JsonRpc_mc.cfg")).read()
+    icfg = open(os.path.join(vlib.SPEC, "JsonRpc_ids.cfg")).read()
+    lcfg = open(os.path.join(vlib.SPEC, "JsonRpc_live.cfg")).read()
+    if thorough:
+        mcfg = mcfg.replace("NC = 2", "NC = 3").replace("MaxPC = 0", "MaxPC = 1")
+        icfg = icfg.replace('IdVocab = "small"', 'IdVocab = "full"')
+        lcfg = lcfg.replace("NC = 2", "NC = 3").replace("MaxPN = 1", "MaxPN = 0")
+    jobs.tlc("c_mc", "JsonRpc", "mc.cfg", files={"mc.cfg": mcfg}, workers=16 if thorough else 8, timeout=1500, xmx="12g" if thorough else "4g")
+    jobs.tlc("c_ids", "JsonRpc", "ids.cfg", files={"ids.cfg": icfg}, workers=8, timeout=1500, xmx="8g" if thorough else "4g")
+    jobs.tlc("c_live", "JsonRpc", "live.cfg", files={"live.cfg": lcfg}, workers=8, timeout=1500, xmx="8g")
+    for cfg, _, _ in CONN_NEG:
+        jobs.tlc(cfg, "JsonRpc", cfg, workers=1, timeout=300)
 
+
+def framing(ck, thorough, binp, jobs):
+    sc = vlib.scratch()
     # --- GEN --------------------------------------------------------------------------------------
     p = vlib.run([binp, "catalogue"])
     rows = json.loads(p.stdout.decode())
+    numeric_strings = [r["id"]["v"] for r in rows if r["id"]["t"] == "str" and r["id"]["n"] != -1000]
+    if len(numeric_strings) < 3:
+        raise vlib.InfraError("the catalogue has only %d string ids that look like numbers" % len(numeric_strings))
     num = 4000 if thorough else 600
     sim = vlib.tlc("MCFramingSim", "Framing_sim.cfg", files={"FramingCatalogue.tla": catalogue_module(rows)}, workers=1,
                    simulate="num=%d" % num, depth=800, tlc_seed=ck.seed, timeout=900, xss="512m")
@@ -112,13 +164,17 @@ def framing(ck, thorough, binp):
         raise vlib.InfraError("variants never exercised: %s" % sorted(need - set(s["variants"])))
     if s["pipe_runs"] != s["behaviours"] or s["roundtrips"] != s["behaviours"]:
         raise vlib.InfraError("pipe/round-trip replays incomplete: %s" % s)
+    if s["ids_compared"] < s["behaviours"] // 2 or s["numeric_string_ids_read"] < 20:
+        raise vlib.InfraError("typed ids hardly compared: %s" % {k: s[k] for k in ("ids_compared", "numeric_string_ids_read")})
     ck.set("framing_behaviours_replayed", s["behaviours"])
     ck.set("framing_stream_runs", s["stream_runs"] + s["pipe_runs"] + s["roundtrips"])
     ck.set("framing_variants", s["variants"])
     ck.set("framing_error_classes", s["errors"])
-    ck.set("framing_catalogue", [{k: r[k] for k in ("kind", "idk", "blen", "rlen")} for r in rows])
+    ck.set("framing_typed_ids_compared", s["ids_compared"])
+    ck.set("framing_numeric_looking_string_ids_read_back", s["numeric_string_ids_read"])
+    ck.set("framing_catalogue", [{k: r[k] for k in ("kind", "idk", "id", "blen", "rlen")} for r in rows])
 
-    # binding self-test: a behaviour whose expectation was corrupted must be reported
+    # binding self-tests: a behaviour whose expectation was corrupted must be reported
     bad = next((b for b in behs if b["class"] == "bad" and b["variant"] in ("zero", "nocolon", "missing", "negative")), None)
     if bad is None:
         raise vlib.InfraError("no malformed behaviour available for the binding self-test")
@@ -129,8 +185,53 @@ def framing(ck, thorough, binp):
     pf = vlib.run([binp, "framing", fpath, str(ck.seed), "2"], check=False)
     if b'"kind":"fail"' not in pf.stdout:
         raise vlib.InfraError("binding self-test failed: a forged expectation (malformed frame expected to decode) was not reported")
-    ck.set("framing_binding_selftest", "forged expectation reported")
+    donor = next((b for b in behs if b["class"] == "good" and any(i["t"] == "str" and i["n"] != -1000 for i in b["ids"])), None)
+    if donor is None:
+        raise vlib.InfraError("no well-formed behaviour with a numeric-looking string id available for the binding self-test")
+    forged = json.loads(json.dumps(donor))
+    for i in forged["ids"]:
+        if i["t"] == "str" and i["n"] != -1000:
+            i["t"], i["v"] = "num", str(i["n"])      # what the 'unquote' decoder would hand over
+            break
+    write_lines(fpath, [forged])
+    pf = vlib.run([binp, "framing", fpath, str(ck.seed), "2"], check=False)
+    if b'"sig":"Framing.IdsPreserved.TypeChanged"' not in pf.stdout:
+        raise vlib.InfraError("binding self-test failed: a forged id type (string id expected back as a number) was not reported")
+    ck.set("framing_binding_selftest", "forged expectation reported; forged id type reported")
+
+    # --- MC (started earlier, concurrently) -------------------------------------------------------
+    closed = jobs.get("f_closed")
+    if not closed.ok:
+        raise vlib.InfraError("closed reader automaton violates %s: the model of stream.Read is wrong" % closed.violated)
+    ck.add_tlc(closed, "Framing_closed (reader automaton, all inputs)")
+    mc = jobs.get("f_mc")
+    if not mc.ok:
+        raise vlib.InfraError("Framing model violates %s: spec and code model disagree" % mc.violated)
+    ck.add_tlc(mc, "Framing_mc")
+    for cfg, inv, what in FRAMING_NEG:
+        neg = jobs.get(cfg)
+        if neg.violated != inv:
+            raise vlib.InfraError("negative config %s (%s) was not rejected by %s (got %s)" % (cfg, what, inv, neg.violated))
+    ck.set("framing_negative_config_rejected", True)
+    ck.set("framing_negative_configs_rejected", [w for _, _, w in FRAMING_NEG])
     return s["behaviours"]
+
+
+def show(i):
+    return ("#%s" % i["v"]) if i["t"] == "num" else ('"%s"' % i["v"]) if i["t"] == "str" else "-"
+
+
+def render(e):
+    x = "%s(%s)" % (e["e"], e["w"])
+    if e["e"] in ("reg", "del", "disp"):
+        x += " id=%s pending=[%s]" % (show(e["id"]), " ".join(show(p) for p in e["pend"]))
+        if e["e"] == "disp":
+            x += " found=%s" % e["found"]
+    elif e["e"] == "ret":
+        x += " res=%s" % e["res"]
+    elif e["id"]["t"] != "none":
+        x += " id=%s" % show(e["id"])
+    return x
 
 
 def classify_reject(case, hwm):
@@ -140,7 +241,28 @@ def classify_reject(case, hwm):
         return "JsonRpc.TraceRejected", "no event could be matched"
     e = ev[hwm - 1]
     before = ev[:hwm - 1]
-    what = "event %d %s(%s) of the recorded execution has no matching step in JsonRpc.tla" % (hwm, e["e"], e["w"])
+    what = "event %d %s of the recorded execution has no matching step in JsonRpc.tla" % (hwm, render(e))
+    if e["e"] == "reg":
+        regs = [x for x in ev if x["e"] == "reg"]
+        for a in range(len(regs)):
+            for b in range(a + 1, len(regs)):
+                if regs[a]["id"] == regs[b]["id"]:
+                    pend = set()
+                    for x in ev:        # was the id still pending when it was registered again?
+                        if x is regs[b]:
+                            break
+                        if x["e"] == "reg":
+                            pend.add(show(x["id"]))
+                        elif x["e"] == "del":
+                            pend.discard(show(x["id"]))
+                    how = "while it was still pending" if show(regs[b]["id"]) in pend else "one after the other"
+                    return "JsonRpc.UniqueIds", ("calls of callers %s and %s on one conn both drew the id %s (registered %s): the id allocation "
+                                                 "is not one atomic step, so no run of the model's counter produces these ids; %s"
+                                                 % (regs[a]["w"], regs[b]["w"], show(regs[a]["id"]), how, what))
+        nums = sorted(x["id"]["n"] for x in regs if x["id"]["t"] == "num")
+        if len(nums) != len(regs) or nums != list(range(1, len(regs) + 1)):
+            raise vlib.InfraError("the conn's call ids are %s, not the values 1..n of a counter: JsonRpc.tla's Alloc no longer models conn.Call (model drift)"
+                                  % [show(x["id"]) for x in regs])
     if e["e"] == "wbeg":
         open_w = None
         for x in before:
@@ -152,36 +274,65 @@ def classify_reject(case, hwm):
             return "JsonRpc.FramesNeverInterleave", what + ": writer %s is still between wbeg and wend (two writers inside stream.Write)" % open_w
         if 1 <= e["w"] <= 9 and not any(x["e"] == "reg" and x["w"] == e["w"] for x in before):
             return "JsonRpc.RegisteredBeforeSending", what + ": the call is written before its id is in pending"
+        if e["w"] == 0:
+            asked = [x["id"] for x in before if x["e"] == "pcall"]
+            answered = sum(1 for x in before if x["e"] == "wbeg" and x["w"] == 0)
+            if answered < len(asked) and asked[answered] != e["id"]:
+                return "JsonRpc.PeerCallsEchoed", what + ": the peer's call carried the %s id %s and is answered with the %s id %s" % (
+                    kind(asked[answered]), show(asked[answered]), kind(e["id"]), show(e["id"]))
+    if e["e"] == "pong":
+        return "JsonRpc.PeerCallsEchoed", what + ": the response the peer received does not carry the id of its call (ids of its calls: %s)" % (
+            [show(x["id"]) for x in before if x["e"] == "pcall"])
+    if e["e"] == "disp":
+        sent = [x["id"] for x in before if x["e"] in ("reply", "stray")]
+        k = sum(1 for x in before if x["e"] == "disp")
+        if k < len(sent) and sent[k] != e["id"]:
+            return "JsonRpc.IdTypePreserved", what + ": the peer wrote the %s id %s and the run loop looked up the %s id %s%s" % (
+                kind(sent[k]), show(sent[k]), kind(e["id"]), show(e["id"]), " and handed the response to a pending call" if e["found"] else "")
     if e["e"] in ("reg", "del", "disp"):
-        return "JsonRpc.PendingExact", what + ": pending map is %s (found=%s)" % (e["pend"], e["found"])
+        return "JsonRpc.PendingExact", what
+    if e["e"] == "reply":
+        return "JsonRpc.RequestCarriesRegisteredId", what + ": the request the peer received does not carry the id the call registered"
     if e["e"] == "ret":
         return "JsonRpc.Matched", what + ": Call returned %s" % e["res"]
     return "JsonRpc.TraceRejected." + e["e"], what
 
 
-def conn(ck, thorough):
+def kind(i):
+    return {"num": "number", "str": "string"}.get(i["t"], i["t"])
+
+
+def validate(ck, cases, label):
+    """TLC validates the cases; returns the set of accepted ids."""
+    text = "".join(json.dumps(c) + "\n" for c in cases)
+    tv = vlib.tlc("TraceJsonRpc", "JsonRpc_trace.cfg", files={"c18trace.ndjson": text}, workers=1, timeout=1500)
+    if not tv.ok:
+        raise vlib.InfraError("trace validation run failed: %s" % (tv.violated,))
+    if label:
+        ck.add_tlc(tv, label)
+    return {a["id"] for a in tv.tagged("ACCEPT")}
+
+
+def conn(ck, thorough, jobs):
     sc = vlib.scratch()
-    # --- MC ---------------------------------------------------------------------------------------
-    mcfg = open(os.path.join(vlib.SPEC, "JsonRpc_mc.cfg")).read()
-    if thorough:
-        mcfg = mcfg.replace("NC = 2", "NC = 3").replace("NN = 1", "NN = 2")
-    mc = vlib.tlc("JsonRpc", "mc.cfg", files={"mc.cfg": mcfg}, workers=16 if thorough else 8, timeout=1500, xmx="12g" if thorough else "4g")
+    # --- MC (started earlier, concurrently) -------------------------------------------------------
+    mc = jobs.get("c_mc")
     if not mc.ok:
         raise vlib.InfraError("JsonRpc model violates %s" % mc.violated)
-    ck.add_tlc(mc, "JsonRpc_mc " + ("3 callers x 2 notifiers" if thorough else "2 callers x 1 notifier"))
-    lcfg = open(os.path.join(vlib.SPEC, "JsonRpc_live.cfg")).read()
-    if thorough:
-        lcfg = lcfg.replace("NC = 2", "NC = 3").replace("NN = 0", "NN = 0").replace("MaxPN = 1", "MaxPN = 0")
-    live = vlib.tlc("JsonRpc", "live.cfg", files={"live.cfg": lcfg}, workers=8, timeout=1500, xmx="8g")
+    ck.add_tlc(mc, "JsonRpc_mc " + ("3 callers x 1 notifier" if thorough else "2 callers x 1 notifier"))
+    ids = jobs.get("c_ids")
+    if not ids.ok:
+        raise vlib.InfraError("JsonRpc model (typed ids, stray responses, peer calls) violates %s" % ids.violated)
+    ck.add_tlc(ids, "JsonRpc_ids (typed ids: stray responses and peer calls with confusable ids)")
+    live = jobs.get("c_live")
     if not live.ok:
         raise vlib.InfraError("JsonRpc liveness (CallsReturn) does not hold in the model: %s" % live.violated)
     ck.add_tlc(live, "JsonRpc_live (CallsReturn)")
-    for cfg, inv in (("JsonRpc_neg_nomutex.cfg", "FramesNeverInterleave"), ("JsonRpc_neg_unbuffered.cfg", "ReaderNeverBlocks"),
-                     ("JsonRpc_neg_latereg.cfg", "RegisteredBeforeSending")):
-        neg = vlib.tlc("JsonRpc", cfg, workers=1, timeout=300)
+    for cfg, inv, what in CONN_NEG:
+        neg = jobs.get(cfg)
         if neg.violated != inv:
-            raise vlib.InfraError("negative config %s was not rejected by %s (got %s)" % (cfg, inv, neg.violated))
-    ck.set("conn_negative_configs_rejected", ["no writeMu", "unbuffered reply channel", "register after sending"])
+            raise vlib.InfraError("negative config %s (%s) was not rejected by %s (got %s)" % (cfg, what, inv, neg.violated))
+    ck.set("conn_negative_configs_rejected", [w for _, _, w in CONN_NEG])
 
     # --- hooks present? ---------------------------------------------------------------------------
     missing = hooks_present()
@@ -189,8 +340,9 @@ def conn(ck, thorough):
         raise vlib.InfraError("conn half of C18 not bound to the code: %s -- apply /verif/hooks/C18-jsonrpc2-conn.diff to %s "
                               "(the framing half and the model checks above were completed)" % (missing, vlib.REPO))
 
-    # --- GEN: peer scripts on the real conn -------------------------------------------------------
+    # --- GEN: peer scripts on the real conn, then bursts -----------------------------------------
     num = 2500 if thorough else 300
+    nbursts = 600 if thorough else 60
     sim = vlib.tlc("MCJsonRpcSim", "JsonRpc_sim.cfg", workers=1, simulate="num=%d" % num, depth=90, tlc_seed=ck.seed, timeout=900)
     if sim.violated:
         raise vlib.InfraError("conn simulation violated %s in the model" % sim.violated)
@@ -203,11 +355,11 @@ def conn(ck, thorough):
     with open(hpath, "w") as fh:
         for h in uniq:
             fh.write(h + "\n")
-    binr = vlib.go_build("./c18", "c18race", tags=("verif", "c18hooks"), race=True)
+    binr = jobs.get("race_build")
     tpath = os.path.join(sc, "c18trace.ndjson")
     env = vlib.goenv()
     env["GORACE"] = "halt_on_error=1 exitcode=66"
-    pr = vlib.run([binr, "conn", hpath, str(ck.seed), tpath, "6"], check=False, timeout=1500, env=env)
+    pr = vlib.run([binr, "conn", hpath, str(ck.seed), tpath, "6", str(nbursts)], check=False, timeout=1500, env=env)
     if pr.returncode == 66 or b"WARNING: DATA RACE" in pr.stderr:
         m = re.search(rb"WARNING: DATA RACE.*?(?:\n\n|\Z)", pr.stderr, re.S)
         text = (m.group(0) if m else pr.stderr)[-3000:].decode(errors="replace")
@@ -220,14 +372,18 @@ def conn(ck, thorough):
     if s["fails"] == 0 and (s["cases"] != len(uniq) or s["traces"] != len(uniq)):
         raise vlib.InfraError("conn harness replayed %d of %d scripts" % (s["cases"], len(uniq)))
     ck.set("conn_scripts_replayed", s["cases"])
-    ck.set("conn_hook_and_env_events", s["events"])
+    ck.set("conn_hook_and_env_events", s["events"] + s["burst_events"])
     ck.set("conn_script_steps", s["script_steps"])
     ck.set("conn_steps_not_realised_in_order", s["unrealised_steps"])
     ck.set("conn_outcome_other_side_of_race", s["diverged"])
+    ck.set("conn_bursts", {"rounds": s["bursts"], "callers_per_round": s["burst_callers"], "notifiers_per_round": 2,
+                           "events": s["burst_events"], "rounds_ended_by_watchdog": s["burst_watchdog_rounds"]})
     if s["fails"]:
         return s["cases"]
     if s["events"] < 10 * s["cases"]:
         raise vlib.InfraError("hooks silent: only %d events in %d cases" % (s["events"], s["cases"]))
+    if s["bursts"] < nbursts and s["burst_watchdog_rounds"] == 0:
+        raise vlib.InfraError("only %d of %d bursts were run" % (s["bursts"], nbursts))
 
     # --- VAL: TLC validates every recorded execution ---------------------------------------------
     cases = {}
@@ -238,46 +394,94 @@ def conn(ck, thorough):
             cases[c["id"]] = c
             for e in c["ev"]:
                 kinds[e["e"]] = kinds.get(e["e"], 0) + 1
-    for k in ("reg", "wbeg", "wend", "disp", "del", "cancel", "reply", "ret"):
-        if kinds.get(k, 0) < len(cases) // 4:
+    nscript = sum(1 for c in cases.values() if not c["eager"])
+    for k in ("reg", "wbeg", "wend", "disp", "del", "cancel", "reply", "ret", "pcall", "pong", "stray"):
+        least = nscript // (10 if k in ("stray",) else 4)
+        if kinds.get(k, 0) < least:
             raise vlib.InfraError("event kind %s recorded only %d times in %d cases: a hook never fired" % (k, kinds.get(k, 0), len(cases)))
     ck.set("conn_event_kinds", kinds)
-    trace_text = open(tpath).read()
-    tv = vlib.tlc("TraceJsonRpc", "JsonRpc_trace.cfg", files={"c18trace.ndjson": trace_text}, workers=1, timeout=1500)
-    if not tv.ok:
-        raise vlib.InfraError("trace validation run failed: %s" % (tv.violated,))
-    ck.add_tlc(tv, "TraceJsonRpc (recorded executions)")
-    accepted = {a["id"] for a in tv.tagged("ACCEPT")}
+    accepted = validate(ck, list(cases.values()), "TraceJsonRpc (recorded executions: scripts and bursts)")
     rejected = sorted(set(cases) - accepted)
     ck.set("conn_traces_accepted", len(accepted))
+    ck.set("conn_burst_traces_accepted", sum(1 for i in accepted if cases[i]["eager"]))
     if rejected:
-        sub = [cases[i] for i in rejected[:20]]
+        # diagnostic run on the first rejected cases, every interleaving of the silent steps (also for the bursts)
+        sub = [dict(cases[i], eager=False) for i in rejected[:8]]
         diag = vlib.tlc("TraceJsonRpc", "JsonRpc_tracediag.cfg", files={"c18trace.ndjson": "".join(json.dumps(c) + "\n" for c in sub)},
-                        workers=1, timeout=600)
+                        workers=1, timeout=900)
         hwm = {}
         for a in diag.tagged("AT"):
             hwm[a["id"]] = max(hwm.get(a["id"], 0), a["i"])
         for c in sub:
+            if hwm.get(c["id"], 0) > len(c["ev"]):
+                raise vlib.InfraError("case %s is rejected with eager silent steps but accepted with all interleavings: the eager discipline "
+                                      "of TraceJsonRpc.tla loses behaviours" % c["id"])
             sig, what = classify_reject(c, hwm.get(c["id"], 0))
-            ck.violation(sig, "conn: " + what, {"events": ["%s(%s)%s" % (e["e"], e["w"], " pending=%s" % e["pend"] if e["e"] in ("reg", "del", "disp") else
-                                                                         (" res=%s" % e["res"] if e["e"] == "ret" else "")) for e in c["ev"]],
-                                                "rejected_at_event": hwm.get(c["id"], 0), "rejected_cases_this_run": len(rejected)})
+            ck.violation(sig, "conn%s: %s" % (" (burst of %d concurrent callers)" % s["burst_callers"] if cases[c["id"]]["eager"] else "", what),
+                         {"events": [render(e) for e in c["ev"]], "rejected_at_event": hwm.get(c["id"], 0),
+                          "rejected_cases_this_run": len(rejected), "burst": cases[c["id"]]["eager"]})
+    # a burst call that returned only because the watchdog cancelled it although its request was answered
+    for c in cases.values():
+        if c["id"] in accepted and c.get("timedout"):
+            ck.violation("JsonRpc.CallsReturn", "conn (burst): calls of callers %s did not return within the watchdog time although the peer answered every request"
+                         % c["timedout"], {"events": [render(e) for e in c["ev"]]})
 
-    # binding self-test: a forged trace (a call returning another call's response) must be rejected
-    donor = next((c for c in cases.values() if c["id"] in accepted and any(e["e"] == "ret" and e["res"] == e["w"] for e in c["ev"])), None)
-    if donor is None:
-        raise vlib.InfraError("no accepted trace with a matched response available for the binding self-test")
-    forged = json.loads(json.dumps(donor))
-    for e in forged["ev"]:
-        if e["e"] == "ret" and e["res"] == e["w"]:
-            e["res"] = e["w"] % 3 + 1
-            break
-    st = vlib.tlc("TraceJsonRpc", "JsonRpc_trace.cfg", files={"c18trace.ndjson": json.dumps(donor) + "\n" + json.dumps(dict(forged, id=-5)) + "\n"},
-                  workers=1, timeout=300)
-    acc = {a["id"] for a in st.tagged("ACCEPT")}
-    if donor["id"] not in acc or -5 in acc:
-        raise vlib.InfraError("binding self-test failed: forged trace (response delivered to the wrong call) was not rejected")
-    ck.set("conn_binding_selftest", "forged trace rejected, original accepted")
+    # binding self-tests on forged traces: each must be rejected while its original is accepted
+    def forge_ret(c):       # a call returning another call's response
+        for e in c["ev"]:
+            if e["e"] == "ret" and e["res"] == e["w"]:
+                e["res"] = e["w"] % 3 + 1
+                return "JsonRpc.Matched"
+
+    def forge_dup(c):       # two concurrent calls registering the same id
+        regs = [e for e in c["ev"] if e["e"] == "reg"]
+        if len(regs) >= 2 and regs[0]["id"] in regs[1]["pend"]:
+            old = regs[1]["id"]
+            for e in c["ev"]:
+                if e["id"] == old:
+                    e["id"] = regs[0]["id"]
+                e["pend"] = [p for p in e["pend"] if p != old]
+            return "JsonRpc.UniqueIds"
+
+    def forge_type(c):      # a stray response with a numeric-looking STRING id looked up as the number
+        k = 0
+        sent = [e for e in c["ev"] if e["e"] in ("reply", "stray")]
+        for e in c["ev"]:
+            if e["e"] == "disp":
+                if k < len(sent) and sent[k]["e"] == "stray" and e["id"]["t"] == "str" and e["id"]["n"] != -1000:
+                    e["id"] = {"t": "num", "v": str(e["id"]["n"]), "n": e["id"]["n"]}
+                    return "JsonRpc.IdTypePreserved"
+                k += 1
+
+    tests = []
+    for name, forge, want_burst in (("response delivered to the wrong call", forge_ret, False), ("two concurrent calls with one id", forge_dup, True),
+                                    ("string id looked up as a number", forge_type, False)):
+        done = False
+        for c in cases.values():
+            if c["id"] not in accepted or c["eager"] != want_burst:
+                continue
+            f = json.loads(json.dumps(c))
+            sig = forge(f)
+            if sig:
+                f["id"] = -len(tests) - 5
+                tests.append((name, sig, c, f))
+                done = True
+                break
+        if not done:
+            raise vlib.InfraError("no accepted trace available for the binding self-test '%s'" % name)
+    acc = validate(ck, [t[2] for t in tests] + [t[3] for t in tests], None)
+    diag = vlib.tlc("TraceJsonRpc", "JsonRpc_tracediag.cfg", files={"c18trace.ndjson": "".join(json.dumps(dict(t[3], eager=False)) + "\n" for t in tests)},
+                    workers=1, timeout=600)
+    hwm = {}
+    for a in diag.tagged("AT"):
+        hwm[a["id"]] = max(hwm.get(a["id"], 0), a["i"])
+    for name, sig, orig, f in tests:
+        if orig["id"] not in acc or f["id"] in acc:
+            raise vlib.InfraError("binding self-test failed: forged trace (%s) was not rejected" % name)
+        got = classify_reject(f, hwm.get(f["id"], 0))[0]
+        if got != sig:
+            raise vlib.InfraError("binding self-test failed: forged trace (%s) is attributed to %s instead of %s" % (name, got, sig))
+    ck.set("conn_binding_selftest", "forged traces rejected and attributed (%s), originals accepted" % "; ".join(t[0] for t in tests))
     return len(accepted)
 
 
@@ -285,21 +489,33 @@ def main():
     ck = vlib.Check("C18", "model_checking")
     thorough = ck.tier == "thorough"
     binp = vlib.go_build("./c18", "c18")
-    n1 = framing(ck, thorough, binp)
+    jobs = Jobs(6)
     try:
-        n2 = conn(ck, thorough)
-    except vlib.InfraError:
-        if ck._nviol:      # the framing half already found a violation of the real code: report it
-            ck.finish()
-        raise
+        if not hooks_present():
+            jobs.call("race_build", vlib.go_build, "./c18", "c18race", tags=("verif", "c18hooks"), race=True)
+        start_mc(jobs, thorough)
+        n1 = framing(ck, thorough, binp, jobs)
+        try:
+            n2 = conn(ck, thorough, jobs)
+        except vlib.InfraError:
+            if ck._nviol:      # the framing half already found a violation of the real code: report it
+                ck.finish()
+            raise
+    finally:
+        jobs.close()
     ck.set("traces_validated_against_impl", n1 + n2)
     ck.set("bounds", {"framing": "closed reader: all inputs; bounded: <=%d messages x 20 variants x all cut points x chunks 1..%d|rest"
                                  % ((3, 2) if thorough else (2, 2)),
-                      "conn": "%s, peer 1 notification + 1 call, cancel at every point" % ("3 callers x 2 notifiers" if thorough else "2 callers x 1 notifier (MC); 3 x 2 (scripts)")})
+                      "conn": "%s, cancel at every point; typed-id model: 2 callers, 1 stray response + 1 peer call from the %s id vocabulary; "
+                              "scripts: 3 callers x 2 notifiers, 1 stray + 1 peer call; bursts: 4 callers x 2 notifiers released together"
+                              % ("3 callers x 1 notifier, peer 1 notification + 1 call" if thorough else "2 callers x 1 notifier, peer 1 notification (MC)",
+                                 "full" if thorough else "small")})
     ck.assume("header whitespace is ASCII; ParseInt's int32 boundary is modelled as 'more than 10 significant digits'")
     ck.assume("a body is decodable exactly when the bytes handed to the decoder are the complete JSON body that was sent")
     ck.assume("the peer answers each call at most once and drains its input (writes to the peer do not block forever)")
-    ck.assume("real goroutine schedules are steered through the hook points and sampled, not enumerated; the exhaustive interleaving claim is for the model, tied to the code by trace validation")
+    ck.assume("real goroutine schedules are steered through the hook points and sampled (scripts) or left to the scheduler (bursts), not enumerated; "
+              "the exhaustive interleaving claim is for the model, tied to the code by trace validation")
+    ck.assume("string ids are non-empty (jsonrpc2.ID's zero value is the number 0 by construction: NewStringID(\"\") is the number 0)")
     ck.finish()
 
 
